@@ -38,3 +38,10 @@ package copier
 //@   ensures isconn[u] ==> fsw == old(fsw)
 //@   ensures fsw >= old(fsw) && fsw <= old(fsw) + 1
 //@   ensures iofaults == old(iofaults) && old(fpos[r]) + n <= fsize[r] ==> err == nil
+
+//@ func NewPooledCopier results(c)
+//@   tags C04
+//@   ensures c != nil && fresh(c)
+//@ func NewCopier results(c)
+//@   tags C04
+//@   ensures c != nil && fresh(c)
